@@ -127,6 +127,73 @@ def resets_of(kind):
     return KINDS[kind][2]
 
 
+# --------------------------------------------------------------------------------------------------
+# method names: "Names for actual fill, request and reset methods can be provided during
+# initialization (the latter is set through reset_name)"
+
+NAMES = ("default", "renamed", "decoy")
+RENAMED_KW = {"fill": "put", "request": "take", "reset_name": "clear"}
+
+
+class Renamed(object):
+    """An element of any kind of the alphabet seen through other method names: *put* is its fill,
+    *take* its request (or compute), *clear* its reset; *run* keeps its name (FillRequest has no
+    keyword for it). Without *decoy* nothing else is there. With *decoy* every default name the
+    wrapped element answers to (fill, request, compute, reset) is present as well, as an unrelated
+    method that is none of the adapter's business: the decoy fill drops its value, the decoy
+    request / compute yield a tagged result, the decoy reset leaves the data alone."""
+
+    def __init__(self, el, decoy):
+        self.wrapped = el
+        if callable(getattr(el, "fill", None)):
+            self.put = el.fill
+        req = getattr(el, "request", None)
+        if not callable(req):
+            req = getattr(el, "compute", None)
+        if callable(req):
+            self.take = req
+        if callable(getattr(el, "reset", None)):
+            self.clear = el.reset
+        if callable(getattr(el, "run", None)):
+            self.run = el.run
+        self.decoy_calls = []
+        if decoy:
+            for name in ("fill", "request", "compute", "reset"):
+                if callable(getattr(el, name, None)):
+                    setattr(self, name, self._decoy(name))
+
+    def _decoy(self, name):
+        calls = self.decoy_calls
+        if name in ("request", "compute"):
+            def method():
+                calls.append(name)
+                yield ("decoy", name)
+        elif name == "fill":
+            def method(value):
+                calls.append(name)
+        else:
+            def method():
+                calls.append(name)
+        return method
+
+
+def has_renamable(kind):
+    """Whether an element of *kind* has a method FillRequest takes the name of (fill, request, reset)."""
+    el = make_element(kind)
+    return any(callable(getattr(el, name, None)) for name in ("fill", "request", "reset"))
+
+
+RENAMABLE_KINDS = tuple(k for k in FILL_KINDS + RUN_KINDS if has_renamable(k))
+
+
+def make_named_element(kind, names):
+    """(element to hand to FillRequest, extra keyword arguments naming its methods)"""
+    el = make_element(kind)
+    if names == "default":
+        return el, {}
+    return Renamed(el, names == "decoy"), dict(RENAMED_KW)
+
+
 def flow_values(kind, k):
     """k distinct values. Powers of two for Sum (a sum identifies the set of values in it)."""
     if kind == "sum":
